@@ -272,6 +272,7 @@ class Ctx:
         self.notes = []
         self.known = [k for k in load_known().get("findings", []) if k.get("property") == pid]
         self._distinct = set()
+        self._tampered = set()
 
     @property
     def thorough(self):
@@ -313,7 +314,7 @@ class Ctx:
         if zero:
             raise Inconclusive("vacuous model %s: actions never taken: %s" % (module, zero))
 
-    def validate_traces(self, spec_subdir, module, cfg, events, n_traces, **kw):
+    def validate_traces(self, spec_subdir, module, cfg, events, n_traces, tamper=True, **kw):
         """Run a trace specification on a list of events (written as trace.json, a JSON array:
         JsonDeserialize is linear, ndJsonDeserialize is quadratic in this TLC build).
         Returns TLCResult; accepted iff r.ok; r.reject = (index, event text) otherwise."""
@@ -330,7 +331,57 @@ class Ctx:
             raise Inconclusive("TLC trace validation %s %s: %s" % (module, cfg, r.error[:1000]))
         if r.ok:
             self.cov["traces_validated_against_impl"] += n_traces
+            if n_traces and tamper and module not in self._tampered and len(events) >= 4 and r.wall < 60:
+                self._tampered.add(module)
+                self._tamper_probe(spec_subdir, module, cfg, events, kw)
         return r
+
+    def _tamper_probe(self, spec_subdir, module, cfg, events, kw):
+        """Binding demonstration (anti-vacuity of a trace specification): the accepted trace is tampered with - one
+        recorded event removed (= one hook missing) or recorded twice - and the trace specification must reject at
+        least one of the tampered copies; otherwise it constrains nothing and the check is inconclusive."""
+        n = len(events)
+        probes = []
+        for frac in (0.25, 0.5, 0.75):
+            i = min(n - 2, max(1, int(n * frac)))
+            probes.append(("drop", i, events[:i] + events[i + 1:]))
+        j = min(n - 2, max(1, (self.seed * 7919) % n))
+        probes.append(("dup", j, events[:j + 1] + [events[j]] + events[j + 1:]))
+        for frac in (0.33, 0.66):
+            i = min(n - 1, max(0, int(n * frac)))
+            e = events[i]
+            if isinstance(e, dict):
+                ints = sorted(k for k, v in e.items() if isinstance(v, int) and not isinstance(v, bool))
+                strs = sorted(k for k, v in e.items() if isinstance(v, str))
+                e2 = dict(e)
+                if ints:
+                    e2[ints[-1]] = e[ints[-1]] + 1
+                elif strs:
+                    e2[strs[-1]] = e[strs[-1]] + "x"
+                else:
+                    continue
+                probes.append(("field", i, events[:i] + [e2] + events[i + 1:]))
+        rejected = 0
+        tdir = os.path.join(self.work, "tamper")
+        os.makedirs(tdir, exist_ok=True)
+        tf = os.path.join(tdir, "trace.json")
+        kw = dict(kw)
+        kw["timeout"] = min(kw.get("timeout", 600), 180)
+        done = 0
+        for kind, i, ev in probes:
+            with open(tf, "w") as f:
+                json.dump(ev, f, separators=(",", ":"))
+            tr = self.tlc(spec_subdir, module, cfg, extra_files=[tf], **kw)
+            if tr.timeout:
+                continue
+            done += 1
+            if not tr.ok:
+                rejected += 1
+        self.cov.setdefault("binding_probes", {})[module] = {"tampered_traces": done, "rejected": rejected,
+                                                            "kinds": "one event removed at 25/50/75 %, one event duplicated, one recorded field changed at 33/66 %"}
+        log("[tamper] %s: %d of %d tampered traces rejected" % (module, rejected, done))
+        if done and rejected == 0:
+            raise Inconclusive("trace specification %s accepted every tampered trace (binding vacuous)" % module)
 
     # ---- harness helpers
     def build(self, name=None):
